@@ -425,6 +425,71 @@ def setupSort (names : List String) : Option (List Key) :=
     | some k, some l => some (k :: l)
     | _, _ => none) (some [])
 
+/-! ### finding F-C08-DUP: the same sort key twice
+
+`report_setup_sort` links the one static `struct sort_key` of a name into the list `sort_keys`
+with `list_add_tail` once per occurrence.  Linking a node that is already in the list corrupts
+it: `-s total,total` leaves `total.next = total` (an endless chain: `cmp_node` never returns
+when two rows tie on `total`), `-s total,self,total` unlinks `self` (the rows are ordered by
+`total` alone).  Mathematically a repeated key adds nothing (`cmpChain_dedup`), so the repaired
+behaviour is `setupSort`/`sortByKeys` above; what the unrepaired code does is modelled here. -/
+
+/-- the intrusive list: node 0 is the head `sort_keys`, node i + 1 the static key number i -/
+structure Links where
+  next : Nat → Nat
+  prev : Nat → Nat
+
+def Links.init : Links := { next := fun _ => 0, prev := fun _ => 0 }
+
+def setAt (f : Nat → Nat) (i v : Nat) : Nat → Nat := fun k => if k = i then v else f k
+
+/-- `list_add_tail(new, head)` = `__list_add(new, head->prev, head)` -/
+def Links.addTail (l : Links) (new : Nat) : Links :=
+  let prev := l.prev 0
+  let l1 : Links := { l with prev := setAt l.prev 0 new }          -- next->prev = new
+  let l2 : Links := { l1 with next := setAt l1.next new 0 }         -- new->next = next
+  let l3 : Links := { l2 with prev := setAt l2.prev new prev }      -- new->prev = prev
+  { l3 with next := setAt l3.next prev new }                        -- prev->next = new
+
+/-- `list_for_each_entry`: the nodes visited from `pos` until the head comes round again;
+    `true` when it does not within `fuel` steps (the chain is endless) -/
+def walk (l : Links) : Nat → Nat → List Nat × Bool
+  | 0, _ => ([], true)
+  | fuel + 1, pos =>
+    if pos = 0 then ([], false)
+    else let r := walk l fuel (l.next pos); (pos :: r.1, r.2)
+
+def Key.all : List Key :=
+  [.total, .totalAvg, .totalMin, .totalMax, .self, .selfAvg, .selfMin, .selfMax, .call, .func, .size]
+
+def Key.idx (k : Key) : Nat := (Key.all.findIdx? (· == k)).getD 0
+
+/-- the key chain `cmp_node` walks after the unrepaired `report_setup_sort`, and whether it is endless -/
+def chainPre (keys : List Key) : List Key × Bool :=
+  let l := keys.foldl (fun l k => l.addTail (k.idx + 1)) Links.init
+  let w := walk l (2 * keys.length + 2) (l.next 0)
+  (w.1.map (fun i => Key.all.getD (i - 1) .total), w.2)
+
+/-- the repair: a key that is already linked is not linked again -/
+def dedupAux (seen : List Key) : List Key → List Key
+  | [] => []
+  | k :: ks => if k ∈ seen then dedupAux seen ks else k :: dedupAux (k :: seen) ks
+
+def dedupKeys (ks : List Key) : List Key := dedupAux [] ks
+
+/-- `report_setup_sort` + the chain `cmp_node` then walks: `fixed = true` the repaired code,
+    `false` the code as it is; `none` = invalid sort key; the flag = endless chain -/
+def setupSortG (fixed : Bool) (names : List String) : Option (List Key × Bool) :=
+  (setupSort names).map fun ks => if fixed then (dedupKeys ks, false) else chainPre ks
+
+/-- the sorted table; `none` = `uftrace report` does not terminate -/
+def sortByChainG (chain : List Key × Bool) (rows : List Row) : Option (List Row) :=
+  let cmp := cmpChain (chain.1.map Key.cmp)
+  let rec ties : List Row → Bool
+    | [] => false
+    | a :: rest => rest.any (fun b => cmp a b == 0) || ties rest
+  if chain.2 && ties rows then none else some (sortRows cmp rows)
+
 /-! ### --diff -/
 
 def zeroRow (key : Nat) : Row :=
